@@ -192,6 +192,36 @@ var c15ops = []c15op{
 	}},
 }
 
+// auxiliary operations: used only by the fill-perturb-recheck histories (not part of the pair /
+// triple alphabets): verification under 8 distinct keys, and under a key that is not a point.
+var nMainOps int
+
+func init() {
+	nMainOps = len(c15ops)
+	for k := 0; k < 8; k++ {
+		k := k
+		c15ops = append(c15ops, c15op{fmt.Sprintf("VerifyGoodKey%d", k), nil, func() string {
+			f := fixtures()
+			return dig(ed25519.Verify(f.batchPub[10+k], f.batchMsg[10+k], f.batchSig[10+k]))
+		}})
+	}
+	c15ops = append(c15ops, c15op{"VerifyUndecodableKey", nil, func() string {
+		f := fixtures()
+		key := make([]byte, 32)
+		key[0] = 2 // y = 2 is not on the curve
+		return dig(ed25519.Verify(key, f.msg, f.sigPure))
+	}})
+	c15ops = append(c15ops, c15op{"VerifyUndecodableR", nil, func() string {
+		f := fixtures()
+		sig := append([]byte{}, f.sigPure...)
+		for i := 0; i < 32; i++ {
+			sig[i] = 0
+		}
+		sig[0] = 2
+		return dig(ed25519.Verify(f.pub, f.msg, sig))
+	}})
+}
+
 type failingReader struct{}
 
 func (failingReader) Read(p []byte) (int, error) { return 0, fmt.Errorf("entropy source failed") }
@@ -358,7 +388,7 @@ func jobC15hist(c *rt.Ctx) {
 	if c.Thorough() {
 		depth = 3
 	}
-	n := len(c15ops)
+	n := nMainOps
 	var seqs [][]int
 	var gen func(prefix []int)
 	gen = func(prefix []int) {
@@ -402,6 +432,32 @@ func jobC15hist(c *rt.Ctx) {
 	}
 	genDeep(nil)
 	c.Require(fmt.Sprintf("history/len%d", deepDepth))
+	// fill - perturb - recheck: N distinct successful verifications (N = 1..8), one perturbing call,
+	// then every one of the N verifications again (bounded caches with replacement, "first N calls"
+	// state, slots corrupted by a failing call)
+	opIx := func(name string) int {
+		for i, o := range c15ops {
+			if o.name == name {
+				return i
+			}
+		}
+		panic("unknown op " + name)
+	}
+	perturb := []string{"VerifyUndecodableKey", "VerifyUndecodableR", "VerifyKeySignBitFlipped", "VerifyBadSigSameKeyMsg", "Batch4OneBad", "Batch5FailingEntropy", "VerifyZip215SmallOrder", "SignPure", "X25519LowOrder", "Batch65"}
+	for nfill := 1; nfill <= 8; nfill++ {
+		for _, pn := range perturb {
+			var sq []int
+			for k := 0; k < nfill; k++ {
+				sq = append(sq, opIx(fmt.Sprintf("VerifyGoodKey%d", k)))
+			}
+			sq = append(sq, opIx(pn))
+			for k := 0; k < nfill; k++ {
+				sq = append(sq, opIx(fmt.Sprintf("VerifyGoodKey%d", k)))
+			}
+			seqs = append(seqs, sq)
+		}
+	}
+	c.Require("history/fill-perturb-recheck")
 	sort.SliceStable(seqs, func(i, j int) bool { return len(seqs[i]) < len(seqs[j]) })
 	states := map[string]bool{}
 	for _, seq := range seqs {
@@ -414,7 +470,11 @@ func jobC15hist(c *rt.Ctx) {
 			continue
 		}
 		c.Step(len(seq))
-		c.Class(fmt.Sprintf("history/len%d", len(seq)))
+		if len(seq) > deepDepth {
+			c.Class("history/fill-perturb-recheck")
+		} else {
+			c.Class(fmt.Sprintf("history/len%d", len(seq)))
+		}
 		c.Distinct(fmt.Sprint(seq), len(seq) > 1)
 		states[resp.Snap] = true
 		c.ExtraMax("max_globals_registered", int64(resp.NGlobals))
@@ -452,7 +512,7 @@ type scenario struct{ threads [][]int }
 
 func c15scenarios(thorough bool) []scenario {
 	var out []scenario
-	n := len(c15ops)
+	n := nMainOps
 	for a := 0; a < n; a++ {
 		for b := a; b < n; b++ {
 			out = append(out, scenario{[][]int{{a}, {b}}})
@@ -486,7 +546,7 @@ func c15scenarios(thorough bool) []scenario {
 		out = append(out, scenario{[][]int{{ix(q[0]), ix(q[1])}, {ix(q[2]), ix(q[3])}}})
 	}
 	// history then concurrency: every operation once, followed by concurrent verifications / signatures
-	for o := range c15ops {
+	for o := 0; o < nMainOps; o++ {
 		out = append(out, scenario{[][]int{{o, ix("VerifyGood")}, {ix("VerifyGood"), ix("SignPure")}}})
 	}
 	return out
